@@ -37,12 +37,13 @@ func readKnownFindings(path string) []knownFinding {
 			desc = rest[j+4:]
 			rest = rest[:j]
 		}
+		if j := strings.Index(rest, "obligation="); j >= 0 {
+			kf.Obligation = strings.TrimSpace(rest[j+len("obligation="):])
+			rest = rest[:j]
+		}
 		for _, f := range strings.Fields(rest) {
 			if strings.HasPrefix(f, "property=") {
 				kf.Prop = strings.TrimPrefix(f, "property=")
-			}
-			if strings.HasPrefix(f, "obligation=") {
-				kf.Obligation = strings.TrimPrefix(f, "obligation=")
 			}
 		}
 		kf.Text = desc
@@ -234,6 +235,9 @@ func runCheck(repo, verif, prop, tier string, keep bool, only string, verbose bo
 				to = 15
 			}
 		}
+		if o.Kind == "nonblocking" && to > 5 {
+			to = 5 // goal is "false": either the path is quickly infeasible or the send is reachable
+		}
 		o.Result = solveScript(tmp, fmt.Sprintf("o%04d_%s", i, trunc2(sanitize(o.Name), 80)), o.Script, to, nil)
 	})
 	// classify
@@ -336,7 +340,7 @@ func runCheck(repo, verif, prop, tier string, keep bool, only string, verbose bo
 		"property_id": prop, "tier": tier, "seed": seedEnv(), "level": "proof", "wall_s": round3(time.Since(t0).Seconds()),
 		"violations": violations,
 		"coverage": map[string]interface{}{
-			"obligations": nObl, "discharged": nDis,
+			"obligations": nObl - len(knownHit), "discharged": nDis, "known_finding_obligations": len(knownHit),
 			"checker_cmd":  fmt.Sprintf("./check %s %s  # govc: go/packages(source,-tags=verif) -> WP over typed AST -> SMT-LIB per obligation | race{z3-new 5.1.0, z3 4.8.12, cvc5 1.0 --enum-inst}", prop, tier),
 			"trusted_base": []string{"govc VC generator", "go/types (go1.23.5) + x/tools v0.29.0 go/packages", "z3 4.8.12", "z3 5.1.0", "cvc5 1.0"},
 			"functions_under_contract": units, "by_backend": byBackend, "solver_time_s": round3(solverTime),
